@@ -2,6 +2,9 @@
 
 ENG = ["T-engines-np", "T-engines-cs"]
 GLUE = dict(extra_prop_files=["props/Glue.v"])      # the tie of Blocks.v to the regenerated glue (T-blocks)
+INITV = ["props/InitVars.v"]                        # the effect table of every init_vars (T-initvars)
+INITV_TRUST = ["translator initvars.py (T7): the init_vars of blocks/*.py read as a list of effects (bind a new dictionary of "
+               "given-or-new variables, drop the next states, clamp under a flag) -> gen/InitVars.v; any other statement fails closed"]
 GLUE_TRUST = ["translator blocks.py (T6): symbolic execution of the dynamics methods of blocks/*.py into gen/BlocksGen.v; its "
               "idiom table (element attributes = model accessors, Network look-ups = Graph.v functions, engine methods = "
               "engine record fields, class = kind) is trusted; Blocks.v is PROVED equal to the regenerated definitions "
@@ -59,21 +62,21 @@ PROPS = {
     "C10": dict(GLUE, prop_file="props/C10.v", generators=ENG + ["T-blocks"], module="harness.p_dyn",
                 slice="Blocks.v trees vs CasADi functions; Jacobian sparsity vs variable sets of the Spec trees",
                 trusted=DYN_TRUST + ["locality is stated on Spec.v values; model_locality composes it with C01 for the regenerated engines"]),
-    "C11": dict(GLUE, prop_file="props/C11.v", generators=ENG + ["T-blocks"] + ["T-tables"], module="harness.p_dyn",
+    "C11": dict(extra_prop_files=GLUE["extra_prop_files"] + INITV, prop_file="props/C11.v", generators=ENG + ["T-blocks", "T-initvars"] + ["T-tables"], module="harness.p_dyn",
                 slice="Blocks.v trees under a clamping option set vs NumPy step and CasADi functions",
                 trusted=["FunctionalExtensionality.functional_extensionality_dep (the only axiom; theorems hold for every numeric structure)",
                          "element-layer model Blocks.v (proved equal to the regenerated glue; tied by the dynamics correspondence besides)",
-                         GLUE_TRUST[0],
+                         GLUE_TRUST[0], INITV_TRUST[0],
                          "translator facts.py (option defaults and phases of Network.step -> gen/Tables.v)"]),
-    "C12": dict(prop_file="props/C12.v", generators=["T-tables"], module="harness.p_dyn",
+    "C12": dict(extra_prop_files=INITV, prop_file="props/C12.v", generators=["T-tables", "T-initvars"], module="harness.p_dyn",
                 slice="Lifecycle.v vs the implementation on lifecycle histories; Blocks.v trees vs NumPy/CasADi on re-used objects",
                 trusted=["no axioms", "Lifecycle.v as model of the variable slots (tied by lifecycle histories)",
-                         "translator effects.py: which expressions allocate a new value is a classification rule (trusted, PARTIAL)"]),
-    "C19": dict(prop_file="props/C19.v", generators=["T-tables"], module="harness.p_life",
+                         "translator effects.py: which expressions allocate a new value is a classification rule (trusted, PARTIAL)"] + INITV_TRUST),
+    "C19": dict(extra_prop_files=INITV, prop_file="props/C19.v", generators=["T-tables", "T-initvars"], module="harness.p_life",
                 slice="Lifecycle.v vs init_vars / step / construction / to_function histories on SX and MX",
                 trusted=["no axioms", "Lifecycle.v as model of base.py slots, Network.step, to_function's readiness scan and "
                          "casadi.Function's free-symbol rule (tied by lifecycle histories)",
-                         "translator facts.py (init_vars resets / step overwrites, read off blocks/*.py -> gen/Tables.v)"]),
+                         "translator facts.py (init_vars resets / step overwrites, read off blocks/*.py -> gen/Tables.v)"] + INITV_TRUST),
     "C13": dict(prop_file="props/C13.v", generators=["T-tables"], module="harness.p_sel",
                 slice="EngineSel.v vs use/get_current_engine on selection histories; recording engines for every (selected, explicit) pair",
                 trusted=["no axioms", "EngineSel.v as model of engines/core.py::use and the module-level selection",
